@@ -333,6 +333,7 @@ def cpp_binding_events(src):
     defined = {a.split()[-1] for a in m.group(2).split(",") if a.strip()}
     body = joined[m.end() : joined.rfind("}")]
     probs = []
+    xla_vars = set(defined) if "XlaOp" in m.group(2) else set()
     for st in [x.strip() for x in body.split(";") if x.strip()]:
         ma = re.match(r"^(?:[\w:<>]+)\s+(\w+)\s*=\s*(.*)$", st, re.S)
         if ma:
@@ -351,10 +352,30 @@ def cpp_binding_events(src):
                 continue  # exponent / suffix of a numeric literal
             if nm not in defined:
                 probs.append("`%s` is referenced before it is bound in `%s`" % (nm, st[:80]))
+        # the value argument of ScalarLike is a compile-time constant expression: no XlaOp variable may occur in it
+        for mm in re.finditer(r"ScalarLike\(", rhs):
+            depth, i, args, cur = 1, mm.end(), [], ""
+            while i < len(rhs) and depth:
+                ch = rhs[i]
+                depth += ch == "("
+                depth -= ch == ")"
+                if ch == "," and depth == 1:
+                    args.append(cur)
+                    cur = ""
+                elif depth:
+                    cur += ch
+                i += 1
+            args.append(cur)
+            if len(args) == 2:
+                for nm in re.findall(r"[A-Za-z_]\w*", args[1]):
+                    if nm in xla_vars:
+                        probs.append("the XlaOp variable `%s` is used inside the compile-time value of `ScalarLike(%s, %s)`" % (nm, args[0].strip(), args[1].strip()[:40]))
         if var:
             if var in defined:
                 probs.append("`%s` is bound twice" % var)
             defined.add(var)
+            if ma and st.split()[0] == "XlaOp":
+                xla_vars.add(var)
     return probs, defined
 
 
@@ -422,6 +443,22 @@ def whole_function_obligations(rep):
         if tname == "xla_client":
             # the alternative constant context: compile-time constants are printed by the C++ constant printer into the same body
             alt_cases = [("alt:" + c[0], c[1], c[2]) for c in cases if c[0].startswith("shipped/")] + [("alt:directed/compile-time-constant-shared", scaled, (float, float))]
+        def main_and_alt_names(pad):
+            def f(ctx, x, y):
+                s_ = (x * y) + y  # an add node of the main context
+                cs = [ctx.constant(100 + i, x) for i in range(pad)]  # shifts the per-context node numbering
+                c = ctx.constant(2, x) + ctx.constant(3, x)  # an add node of the alternative (compile-time) context, used twice
+                d = c * c
+                r = (s_ * s_) * d
+                for c_ in cs:
+                    r = r + c_
+                return r
+
+            return f
+
+        if tname == "xla_client":
+            for pad in range(8):
+                alt_cases.append(("alt:directed/main-and-alt-context-names[%d][as-traced]" % pad, main_and_alt_names(pad), (float, float)))
         for cname, func, sig in cases + alt_cases:
             alt = cname.startswith("alt:")
             oid = "C06/O5/%s/bound-before-use/%s" % (tname, cname)
@@ -433,7 +470,9 @@ def whole_function_obligations(rep):
 
                     with contextlib.redirect_stdout(io.StringIO()):
                         ctx = fa.Context(paths=[A], enable_alt=True, default_constant_type="DType") if alt else fa.Context(paths=[A])
-                        g = ctx.trace(func, *sig).rewrite(target, fa.rewrite)
+                        g = ctx.trace(func, *sig)
+                        # directed graphs with the [as-traced] tag are printed without the algebraic rewriter (legal API use)
+                        g = g if cname.endswith("[as-traced]") else g.rewrite(target, fa.rewrite)
                         src = g.tostring(target)
             except NotImplementedError as e:
                 rep.add(core.decided(oid, PROP, None, functions=fnid, text="the target does not accept this graph: %s" % e, claimed=False))
@@ -448,6 +487,25 @@ def whole_function_obligations(rep):
             rep.add(core.decided(oid, PROP, not probs, functions=fnid, text="every named value is bound exactly once before it is referenced", detail=dict(problems=probs[:4], text=src[:600] if probs else None), meta=dict(target=tname, kind="whole-function " + cname, problems=probs[:3])))
             if tname == "xla_client":
                 rep.add(core.decided(oid.replace("/bound-before-use/", "/named-constants-rendered/"), PROP, not named, functions=("targets.xla_client.constant_to_target",), text="named constants are rendered by an expression of the target, not left as bare names", detail=dict(problems=named[:4]), meta=dict(target=tname, kind="named-constants " + cname, problems=sorted({re.match(r"`\$?(\w+)`", pr).group(1) for pr in named}))))
+
+    # one Context used for two signatures of the same function (xla_client): parameters and body must agree on names
+    def sel(ctx, x, y):
+        return ctx.select(abs(x) < abs(y), x, y)
+
+    try:
+        with warnings.catch_warnings():
+            warnings.simplefilter("ignore")
+            import contextlib
+            import io
+
+            with contextlib.redirect_stdout(io.StringIO()):
+                ctx = fa.Context(paths=[A])
+                ctx.trace(sel, float, float).tostring(T.xla_client)
+                src = ctx.trace(sel, complex, complex).tostring(T.xla_client)
+        probs = cpp_binding_events(src)[0]
+    except Exception as e:
+        probs, src = ["raised %r" % (e,)], ""
+    rep.add(core.decided("C06/O5/xla_client/bound-before-use/directed/second-signature-in-one-context", PROP, not probs, functions=("targets.xla_client.Printer",), text="a second signature traced in the same Context: parameters and body use the same names", detail=dict(problems=probs[:4], text=src[:500] if probs else None), meta=dict(target="xla_client", kind="whole-function directed/second-signature-in-one-context", problems=probs[:3])))
 
 
 def build(tier):
